@@ -136,6 +136,36 @@ Theorem C08_replica_contiguous_exact :
          (forall i : N, i < i_contiguous (core_info c) -> H i = true) /\ H (i_contiguous (core_info c)) = false.
 Proof. exact RD_contiguous. Qed.
 
+(* Tie of update_contiguous_length to the source, regenerated on every run: tools/srcfns.py parses src/core.rs
+   update_contiguous_length — `let end = start + length`, in the `if bitfield_update.drop` branch the condition and the value
+   assigned to `c` (`c > bitfield_update.start`, `bitfield_update.start`; an earlier, since repaired, defect was a wrong condition
+   here), in the other branch the condition (`c <= end && c >= bitfield_update.start`, `end` inlined) and the value from which the
+   `while bitfield.get(c)` scan starts — into SrcFns.v as expressions over named variables (FnDesc.v; meaning pinned by
+   C06_source_functions_meaning). `tied_fn None _` (not found in the recognisable form) is True. For every expression that was
+   found: the model's update_contig — the function C08_contiguous_length_exact and the replay theorems are about — on a drop /
+   on a set takes exactly the source's decision with the source's value, for all (unbounded) arguments. *)
+From HC Require Import FnDesc SrcFns.
+From HC Require FnTie.
+From Coq Require FMapPositive.
+Local Open Scope string_scope.
+Local Open Scope list_scope.
+Local Open Scope N_scope.
+
+(* the running value `c` (initially header.hints.contiguous_length) and the two fields of the update *)
+Definition C08_env_contig (c start length : N) : string -> N :=
+  env_of [("c", c); ("bitfield_update.start", start); ("bitfield_update.length", length)].
+
+Theorem C08_source_functions :
+  tied_fn src_contig_end (fun e => forall c start length, reval (C08_env_contig c start length) e = start + length) /\
+  tied_fn src_contig_drop_cond (fun dc => tied_fn src_contig_drop_value (fun dv =>
+    forall c b start length, let env := C08_env_contig c start length in
+      update_contig c b (mkBfUpdate true start length) = if truthy (reval env dc) then reval env dv else c)) /\
+  tied_fn src_contig_set_cond (fun sc => tied_fn src_contig_set_from (fun sf =>
+    forall c b start length, let env := C08_env_contig c start length in
+      update_contig c b (mkBfUpdate false start length) =
+      if truthy (reval env sc) then bf_skip_set (S (FMapPositive.PositiveMap.cardinal (bf_bits b))) b (reval env sf) else c)).
+Proof. exact FnTie.source_contig_functions_are_the_models. Qed.
+
 Print Assumptions C08_has_after_update.
 Print Assumptions C08_has_after_set_range.
 Print Assumptions C08_changed_pages_are_dirty.
@@ -153,3 +183,4 @@ Print Assumptions C08_exact_after_crash_recovery.
 Print Assumptions C08_replay_over_any_bit_mixture_with_clears.
 Print Assumptions C08_replica_has_exact.
 Print Assumptions C08_replica_contiguous_exact.
+Print Assumptions C08_source_functions.
